@@ -756,6 +756,8 @@ class MindsDBParser(Parser):
         nullable = True
         if hasattr(p, 'NOT'):
             nullable = False
+        if not isinstance(p.table_column, TableColumn):
+            raise ParsingException('NULL / NOT NULL is allowed only after a column definition')
         p.table_column.nullable = nullable
         return p.table_column
 
